@@ -93,7 +93,7 @@ SHRINK_BUDGET = (250, 120.0)
 MAX_STEPS = {'quick': 12, 'thorough': 40}
 NARR = 3
 RTOL = 1e-12
-F_RTOL = {'cpl': 1e-12, 'ctl': 1e-12, 'ctl_q': 1e-11}
+F_RTOL = {'cpl': 1e-12, 'ctl': 1e-12, 'ctl_q': 1e-12}
 KEPLER_RTOL = 1e-13
 
 RULE = ('Hypothesis draws a configuration (model cpl|ctl|ctl_q|layered x base earth|io x rheology maxwell|andrade x blank-start x '
@@ -116,8 +116,10 @@ MODELS = ['cpl', 'ctl', 'ctl_q', 'layered']
 ORB_KEYS = ['orbital_period', 'orbital_frequency', 'semi_major_axis']
 SPIN_KEYS = ['spin_period', 'spin_frequency']
 BASES = {
-    'earth': {'pack': 'earth_simple', 'mass': 5.972e24, 'tidal_layer': 'Upper_Mantle', 'other_layer': 'Lower_Mantle'},
-    'io': {'pack': 'io_simple', 'mass': 8.93e22, 'tidal_layer': 'Mantle', 'other_layer': 'Core'},
+    # NB the layer switch is the config key `is_tidally_active` (default True for rock, False for iron); the `is_tidal` key
+    # of the WorldPack files is not read by LayerBase, so 'earth_simple' has TWO tidally active layers.  Set explicitly here.
+    'earth': {'pack': 'earth_simple', 'mass': 5.972e24, 'tidal_layers': ['Upper_Mantle', 'Lower_Mantle'], 'other_layer': 'Outer_Core'},
+    'io': {'pack': 'io_simple', 'mass': 8.93e22, 'tidal_layers': ['Mantle'], 'other_layer': 'Core'},
 }
 STALE_KINDS = ['e', 'obliquity', 'fixed_q', 'fixed_dt', 'temperature']
 # upstream -> downstream
@@ -268,7 +270,7 @@ def _op(draw, cfg):
         kw = draw(_subset_kwargs(array, [['fixed_q'], ['fixed_dt']]))
         defer = draw(st.booleans()) and draw(st.booleans())
     else:
-        kw = {'layer': draw(st.sampled_from(['tidal'] * 7 + ['other'])),
+        kw = {'layer': draw(st.sampled_from(['tidal0'] * 4 + ['tidal1'] * 3 + ['other'])),
               'via': draw(st.sampled_from(['set_temperature', 'property', 'set_state'])),
               'temperature': draw(_value('temperature', array))}
     return [kind, kw, bool(defer)]
@@ -290,10 +292,25 @@ def _case(draw, tier):
     }
     n = draw(st.integers(2, MAX_STEPS[tier]))
     ops = []
-    if model == 'layered' and draw(st.sampled_from([True, True, True, False])):
-        # most layered histories start by giving the tidal layer a temperature (otherwise no strength, no tides)
-        ops.append(['layer.temperature', {'layer': 'tidal', 'via': 'set_temperature',
-                                          'temperature': draw(_value('temperature', cfg['array']))}, False])
+    if model == 'layered' and draw(st.sampled_from([True, True, True, True, False])):
+        # most layered histories start by giving every tidal layer a temperature (otherwise no strength, no tides)
+        for k in range(len(BASES[cfg['base']]['tidal_layers'])):
+            ops.append(['layer.temperature', {'layer': 'tidal%d' % k, 'via': 'set_temperature',
+                                              'temperature': draw(_value('temperature', cfg['array']))}, False])
+    if draw(st.sampled_from([True, True, True, False])):
+        # most histories are primed with a complete state so that the tides are live early (a world that is not
+        # spin-locked computes nothing until it has a spin; a blank world nothing until it has an orbit)
+        arr = cfg['array']
+        kw = {}
+        f = draw(st.sampled_from(ORB_KEYS))
+        kw[f] = draw(_value(f, arr))
+        kw['eccentricity'] = draw(_value('eccentricity', arr))
+        if not cfg['sync']:
+            f = draw(st.sampled_from(SPIN_KEYS))
+            kw[f] = draw(_value(f, arr))
+        if draw(st.booleans()):
+            kw['obliquity'] = draw(_value('obliquity', arr))
+        ops.append(['world.set_state', kw, False])
     while len(ops) < n:
         ops.append(draw(_op(cfg)))
     check = [bool(draw(st.sampled_from([True, True, True, False]))) for _ in ops]
@@ -325,9 +342,9 @@ def fixed_cases(tier):
     cfg = {'model': 'layered', 'base': 'io', 'rheology': 'andrade', 'blank': False, 'sync': False, 'obl': True,
            'trunc': 2, 'lmax': 2, 'array': False}
     out.append({'config': cfg, 'check': [True, True, True, True],
-                'ops': [['layer.temperature', {'layer': 'tidal', 'via': 'set_temperature', 'temperature': 1400.0}, False],
+                'ops': [['layer.temperature', {'layer': 'tidal0', 'via': 'set_temperature', 'temperature': 1400.0}, False],
                         ['world.set_state', {'orbital_period': 50.0, 'eccentricity': 0.2, 'obliquity': 0.17, 'spin_period': 10.0}, False],
-                        ['layer.temperature', {'layer': 'tidal', 'via': 'property', 'temperature': 1650.0}, False],
+                        ['layer.temperature', {'layer': 'tidal0', 'via': 'property', 'temperature': 1650.0}, False],
                         ['world.set', {'obliquity': 0.4}, True]]})
     return out
 
@@ -353,6 +370,9 @@ def in_domain(case):
             return False
         for kind, kw, defer in ops:
             if not isinstance(defer, bool) or not kw:
+                return False
+            if kind == 'layer.temperature' and (kw.get('layer') not in ('tidal0', 'tidal1', 'other')
+                                                or kw.get('via') not in ('set_temperature', 'property', 'set_state')):
                 return False
             for f, v in kw.items():
                 if f in ('layer', 'via'):
@@ -432,8 +452,9 @@ def _build(cfg, fixed_q=None, fixed_dt=None, temperatures=None):
     tides = {'eccentricity_truncation_lvl': cfg['trunc'], 'max_tidal_order_l': cfg['lmax'], 'obliquity_tides_on': cfg['obl']}
     if cfg['model'] == 'layered':
         tides['model'] = 'layered'
-        new = {'force_spin_sync': cfg['sync'], 'type': 'layered', 'tides_on': True, 'tides': tides,
-               'layers': {b['tidal_layer']: {'is_tidal': True, 'rheology': {'model': cfg['rheology']}}}}
+        layers = {name: {'is_tidally_active': True, 'rheology': {'model': cfg['rheology']}} for name in b['tidal_layers']}
+        layers[b['other_layer']] = {'is_tidally_active': False}
+        new = {'force_spin_sync': cfg['sync'], 'type': 'layered', 'tides_on': True, 'tides': tides, 'layers': layers}
     else:
         tides.update({'model': 'global_approx', 'use_ctl': cfg['model'] != 'cpl', 'fixed_q': 125.0, 'fixed_dt': 600.0,
                       'static_k2': 0.33,
@@ -458,7 +479,9 @@ def _new_model():
 
 def _layer_name(cfg, which):
     b = BASES[cfg['base']]
-    return b['tidal_layer'] if which == 'tidal' else b['other_layer']
+    if which == 'other':
+        return b['other_layer']
+    return b['tidal_layers'][min(int(which[5:] or 0), len(b['tidal_layers']) - 1)]
 
 
 def _apply_model(model, cfg, op):
@@ -817,7 +840,7 @@ def evaluate(case):
             only = 'e'
         elif changed in ({'obliquity'}, {'fixed_q'}, {'fixed_dt'}):
             only = next(iter(changed))
-        elif changed == {'temperature:tidal'}:
+        elif len(changed) == 1 and next(iter(changed)).startswith('temperature:tidal'):
             only = 'temperature'
         if only is not None and freq_seen and live:
             c.label('stale:%s_only_after_freq' % only)
